@@ -30,6 +30,46 @@ theorem u16len_take_drop (l : List Char) (a b : Nat) (h : a ≤ b) :
   have h3 : (l.take b).drop a = (l.drop a).take (b - a) := by rw [List.drop_take]
   rw [h1, u16len_app, h2, h3]
 
+/-! ### `utf16RuneLen` as translated from the source -/
+
+theorem runeLen_eq (v : Int) : runeLen v = if 0x10000 ≤ v ∧ v ≤ 0x10FFFF then 2 else 1 := by
+  unfold runeLen Facts.C35.utf16RuneLen
+  by_cases h1 : (0x10000 : Int) ≤ v <;> by_cases h2 : v ≤ (0x10FFFF : Int) <;> simp [h1, h2] <;> omega
+
+theorem char_lt (c : Char) : c.toNat < 0x110000 := by
+  have := c.valid
+  simp only [UInt32.isValidChar, Nat.isValidChar] at this
+  simp only [Char.toNat, UInt32.toNat] at *
+  omega
+
+theorem u16_eq (c : Char) : u16 c = if 0x10000 ≤ c.toNat then 2 else 1 := by
+  have hv := char_lt c
+  unfold u16
+  rw [runeLen_eq]
+  split <;> split <;> omega
+
+/-- `WriteRune` adds to the counter exactly the width of what it appends — for EVERY `rune` value,
+including the ones `strings.Builder.WriteRune` replaces by U+FFFD. -/
+theorem runeLen_charOfRune (r : Int) : runeLen r = (u16 (charOfRune r) : Int) := by
+  rw [u16_eq, runeLen_eq]
+  by_cases h : 0 ≤ r ∧ r.toNat.isValidChar
+  · have hc : charOfRune r = Char.ofNatAux r.toNat h.2 := by simp only [charOfRune, h, and_self, dite_true]
+    have hn : (charOfRune r).toNat = r.toNat := by rw [hc]; rfl
+    rw [hn]
+    have := h.1
+    split <;> split <;> omega
+  · have hc : charOfRune r = Char.ofNat 0xFFFD := by simp only [charOfRune, h, dite_false]
+    have h1 : (Char.ofNat 0xFFFD).toNat = 0xFFFD := by decide
+    rw [hc, h1]
+    have hbad : ¬ (0x10000 ≤ r ∧ r ≤ 0x10FFFF) := by
+      intro hh
+      apply h
+      refine ⟨by omega, ?_⟩
+      unfold Nat.isValidChar
+      omega
+    simp only [hbad, if_false]
+    decide
+
 /-! ### Trailing trim -/
 
 theorem trimRight_split (l : List Char) :
@@ -130,7 +170,9 @@ structure Inv (s : St) : Prop where
   u16 : s.u16 = u16len s.text
   ents : ∀ e ∈ s.ents, EntOK s.text e
   toks : ∀ t ∈ s.toks, TokOK s.text t
-  last : ∀ cs ce, s.last = some (cs, ce) → cs ≤ ce ∧ ce ≤ s.text.length
+  /-- `lengths`' last element is meaningful whenever the message has entities (it may be stale —
+  left over from the previous message — only while there are none; `fixEntities` then returns early). -/
+  last : s.ents ≠ [] → ∀ cs ce, s.last = some (cs, ce) → cs ≤ ce ∧ ce ≤ s.text.length
 
 theorem entOK_append {text : List Char} {e : Ent} (p : List Char) (h : EntOK text e) : EntOK (text ++ p) e := by
   obtain ⟨h1, h2, h3, h4⟩ := h
@@ -152,15 +194,15 @@ theorem inv_init : Inv {} where
   u16 := rfl
   ents := fun _ h => by cases h
   toks := fun _ h => by cases h
-  last := fun _ _ h => by cases h
+  last := fun h => absurd rfl h
 
 theorem inv_writeString {s : St} (p : List Char) (h : Inv s) : Inv (writeString s p) := by
   refine ⟨?_, ?_, ?_, ?_⟩
   · simp only [writeString, u16len_app, h.u16]
   · intro e he; exact entOK_append p (h.ents e he)
   · intro t ht; exact tokOK_append p (h.toks t ht)
-  · intro cs ce hl
-    have := h.last cs ce hl
+  · intro hne cs ce hl
+    have := h.last hne cs ce hl
     simp only [writeString, List.length_append]; omega
 
 theorem inv_appendEntities {s : St} (h : Inv s) (off len : Int) (span : Nat × Nat) (fs : List Fmt)
@@ -175,10 +217,14 @@ theorem inv_appendEntities {s : St} (h : Inv s) (off len : Int) (span : Nat × N
     · exact h.ents e he
     · obtain ⟨f, _, rfl⟩ := List.mem_map.mp he
       exact ⟨hspan.1, hspan.2, hoff, hend⟩
-  · intro cs ce hl
-    simp only [appendEntities] at hl
+  · intro hne cs ce hl
+    simp only [appendEntities] at hl hne
     split at hl
-    · exact h.last cs ce hl
+    · rename_i hfs
+      have : fs = [] := by simpa using hfs
+      subst this
+      simp only [List.map_nil, List.append_nil] at hne
+      exact h.last hne cs ce hl
     · have : span = (cs, ce) := Option.some.inj hl
       rw [this] at hspan; exact hspan
 
@@ -199,10 +245,14 @@ theorem inv_appendMessage {s : St} (h : Inv s) (p : List Char) (fs : List Fmt) :
         rw [List.take_of_length_le (by simp only [List.length_append]; omega), u16len_app, h.u16]
         omega
   · intro t ht; exact tokOK_append p (h.toks t ht)
-  · intro cs ce hl
-    simp only [writeString, appendEntities, List.length_append] at hl ⊢
+  · intro hne cs ce hl
+    simp only [writeString, appendEntities, List.length_append] at hl hne ⊢
     split at hl
-    · have := h.last cs ce hl; omega
+    · rename_i hfs
+      have : fs = [] := by simpa using hfs
+      subst this
+      simp only [List.map_nil, List.append_nil] at hne
+      have := h.last hne cs ce hl; omega
     · have hh := Option.some.inj hl
       have h1 : s.text.length = cs := congrArg Prod.fst hh
       have h2 : s.text.length + p.length = ce := congrArg Prod.snd hh
@@ -214,6 +264,18 @@ theorem inv_step {s : St} (h : Inv s) (op : Op) : Inv (step s op) := by
     have h1 := inv_writeString p h
     exact ⟨h1.u16, h1.ents, h1.toks, h1.last⟩
   | write p => exact inv_writeString p h
+  | writeRune r =>
+    refine ⟨?_, ?_, ?_, ?_⟩
+    · simp only [step, u16len_app, u16len, h.u16, runeLen_charOfRune]
+      omega
+    · intro e he; exact entOK_append _ (h.ents e he)
+    · intro t ht; exact tokOK_append _ (h.toks t ht)
+    · intro hne cs ce hl
+      have := h.last hne cs ce hl
+      simp only [step, List.length_append]; omega
+  | reset =>
+    exact { u16 := rfl, ents := (fun _ he => by cases he), toks := (fun _ ht => by cases ht),
+            last := (fun hne => absurd rfl hne) }
   | format p fs =>
     simp only [step]
     split
@@ -239,10 +301,15 @@ theorem inv_step {s : St} (h : Inv s) (op : Op) : Inv (step s op) := by
       · simp only [htok.2]
       · simp only [List.take_length, h.u16]; omega
   | shrink =>
-    refine ⟨h.u16, ?_, h.toks, h.last⟩
-    intro e he
-    obtain ⟨e', hm, hs⟩ := shrinkPreCode_mem s.ents e he
-    exact entOK_sameSpan hs (h.ents e' hm)
+    refine ⟨h.u16, ?_, h.toks, ?_⟩
+    · intro e he
+      obtain ⟨e', hm, hs⟩ := shrinkPreCode_mem s.ents e he
+      exact entOK_sameSpan hs (h.ents e' hm)
+    · intro hne
+      apply h.last
+      intro hnil
+      apply hne
+      simp only [step, hnil, shrinkPreCode, List.reverse_nil]
 
 theorem inv_foldl (ops : List Op) : ∀ s, Inv s → Inv (ops.foldl step s) := by
   induction ops with
@@ -260,6 +327,25 @@ theorem entOK_bounds {text : List Char} {e : Ent} (h : EntOK text e) :
   have m2 := u16len_take_le text e.ce
   omega
 
+/-- The translated loop body of `clampEntities` computes: offset cut to `total`, then length cut so
+that the (cut) offset plus length does not exceed `total`. Proved semantically (any arrangement of
+the statements that computes the same function passes; one that does not, e.g. clamping the length
+with the unclamped offset, fails here). -/
+theorem clamp_eq (total : Int) (e : Ent) :
+    (clamp total e).off = (if e.off > total then total else e.off) ∧
+    (clamp total e).len =
+      (if (if e.off > total then total else e.off) + e.len > total
+       then total - (if e.off > total then total else e.off) else e.len) ∧
+    (clamp total e).kind = e.kind ∧ (clamp total e).lang = e.lang ∧
+    (clamp total e).cs = e.cs ∧ (clamp total e).ce = e.ce := by
+  refine ⟨?_, ?_, rfl, rfl, rfl, rfl⟩
+  · simp only [clamp, Facts.C35.clampOff, decide_eq_true_eq]
+    repeat' split
+    all_goals omega
+  · simp only [clamp, Facts.C35.clampLen, decide_eq_true_eq]
+    repeat' split
+    all_goals omega
+
 /-- Clamping to the first `n` characters: the entity becomes the image of its span cut at `n`. -/
 theorem clamp_ok {text : List Char} {e : Ent} (h : EntOK text e) (n : Nat) :
     let e' := clamp (u16len (text.take n)) e
@@ -274,7 +360,9 @@ theorem clamp_ok {text : List Char} {e : Ent} (h : EntOK text e) (n : Nat) :
   have mce : u16len (text.take (min e.ce n)) ≤ u16len (text.take n) := u16len_take_mono text (by omega)
   have mse : u16len (text.take (min e.cs n)) ≤ u16len (text.take (min e.ce n)) := u16len_take_mono text (by omega)
   have m0 : u16len (text.take e.cs) ≤ u16len (text.take e.ce) := u16len_take_mono text h1
-  simp only [clamp]
+  obtain ⟨ho, hl, _⟩ := clamp_eq (u16len (text.take n)) e
+  dsimp only
+  rw [ho, hl]
   by_cases c1 : e.cs ≤ n
   · have e1 : min e.cs n = e.cs := by omega
     rw [e1] at mcs mse ⊢
@@ -292,13 +380,20 @@ theorem clamp_ok {text : List Char} {e : Ent} (h : EntOK text e) (n : Nat) :
     rw [e1, e2]
     split <;> split <;> omega
 
+theorem ent_ext (a b : Ent) (h1 : a.off = b.off) (h2 : a.len = b.len) (h3 : a.kind = b.kind)
+    (h4 : a.lang = b.lang) (h5 : a.cs = b.cs) (h6 : a.ce = b.ce) : a = b := by
+  cases a; cases b
+  simp only [Ent.mk.injEq]
+  exact ⟨h1, h2, h3, h4, h5, h6⟩
+
 theorem clamp_id {text : List Char} {e : Ent} (h : EntOK text e) : clamp (u16len text) e = e := by
   have b := entOK_bounds h
-  unfold clamp
+  obtain ⟨ho, hl, hk, hg, hcs, hce⟩ := clamp_eq (u16len text) e
   have c1 : ¬ e.off > (u16len text : Int) := by omega
-  simp only [c1, if_false]
+  simp only [c1, if_false] at ho hl
   have c2 : ¬ e.off + e.len > (u16len text : Int) := by omega
-  simp only [c2, if_false]
+  simp only [c2, if_false] at hl
+  exact ent_ext _ _ ho hl hk hg hcs hce
 
 /-- What the repaired `fixEntities` computes: the text cut at some `n` (only white space is cut),
 and every entity clamped to the cut text. -/
@@ -315,10 +410,16 @@ theorem fixEntities_spec (s : St) (h : Inv s) :
   split
   · exact noTrim
   · rename_i cs ce hl
-    have hlast := h.last cs ce hl
     split
     · exact noTrim
-    · dsimp only
+    · rename_i hlfi
+      have hne : (s.ents ≠ []) := by
+        intro hnil
+        apply hlfi
+        rw [hnil]
+        exact Nat.zero_le _
+      have hlast := h.last hne cs ce hl
+      dsimp only
       split
       · obtain ⟨r, hr, hsp⟩ := trimRight_split (s.text.drop cs)
         have hlen := trimRight_length_le (s.text.drop cs)
